@@ -40,6 +40,7 @@ using namespace vh;
 namespace vh {
 typedef void NthFn();
 VH_ROB_MEMBER(NthTag, NotificationComponent, NthFn, NotificationTimerHandler)
+VH_ROB_MEMBER(NtTag, NotificationComponent, Timer::Ptr, m_NotificationTimer)
 /* ApiListener::m_UpdatedObjectAuthority: false during the cold-start phase, in which requests are stashed.  The member's
  * type is deduced (any bool-assignable flag type will do), so only its name ties the harness to it. */
 template<typename Tag, auto M>
@@ -49,6 +50,17 @@ struct RobAuto {
 struct UoaTag { friend auto get(UoaTag); };
 template struct RobAuto<UoaTag, &ApiListener::m_UpdatedObjectAuthority>;
 static inline void SetAuthorityUpdated(bool v) { *get(UoaTag()) = v; }
+
+/* ApiListener::m_Instance (static) and m_LocalEndpoint: a local endpoint makes NotificationTimerHandler skip paused objects when
+ * enable_ha is set (the HA cluster case).  Static-initialiser idiom of harness/c20.cpp. */
+struct ApiInstTag { typedef ApiListener::Ptr *type; };
+struct ApiLocalEpTag { typedef Endpoint::Ptr ApiListener::*type; };
+template<typename Tag> struct Stash { static typename Tag::type value; };
+template<typename Tag> typename Tag::type Stash<Tag>::value;
+template<typename Tag, typename Tag::type M> struct RobFill { RobFill() { Stash<Tag>::value = M; } static RobFill inst; };
+template<typename Tag, typename Tag::type M> RobFill<Tag, M> RobFill<Tag, M>::inst;
+template struct RobFill<ApiInstTag, &ApiListener::m_Instance>;
+template struct RobFill<ApiLocalEpTag, &ApiListener::m_LocalEndpoint>;
 }
 
 static const char *const kCmdName = "c03-cmd";
@@ -100,6 +112,7 @@ struct Event {
 struct UserW {
 	User::Ptr user;
 	TimePeriod::Ptr period;
+	int tf, sf;   /* the filters as configured (the case line): what the model and the specification are given */
 };
 
 struct EnvV { long long v[20]; };
@@ -130,6 +143,10 @@ struct World {
 };
 
 static World l_W;
+static bool l_Detached = false;     /* H 0: the notification objects are not registered with the checkable (and inactive) */
+static int l_ForceBefore = 0;       /* force_next_notification before the running request (detached requests print it) */
+static bool l_HA = false;           /* J 1: during timer runs a local Endpoint exists (ApiListener instance, never activated) */
+static ApiListener::Ptr l_Api;
 static bool l_InX = false;          /* inside an X / Z operation: requests print "q" lines */
 static std::string l_NText;         /* text of the running N operation */
 static NotificationComponent::Ptr l_NC;
@@ -160,6 +177,43 @@ static void SetPeriodOpen(const TimePeriod::Ptr& tp, bool open)
 		tp->SetSegments(new Array({ new Dictionary({ { "begin", 0.0 }, { "end", 1e18 } }) }));
 	else
 		tp->SetSegments(new Array());
+}
+
+/* Filters the way the configuration gives them: `types` / `states` arrays resolved by OnConfigLoaded through FilterArrayToInt and
+ * the name maps of Notification::StaticInitialize (notification.cpp:64-108, user.cpp:14-20).  The representation is a function of the
+ * configured values (deterministic on replay): 0 = the integer attributes set directly, 1 = names (no array at all for "everything":
+ * the default ~0), 2 = names and numeric bits mixed. */
+static const char *const kTypeNames[] = { "DowntimeStart", "DowntimeEnd", "DowntimeRemoved", "Custom", "Acknowledgement", "Problem", "Recovery", "FlappingStart", "FlappingEnd" };
+static const char *const kStateNames[] = { "OK", "Warning", "Critical", "Unknown", "Up", "Down" };
+
+static Array::Ptr FilterArray(int mask, const char *const *names, int n, int mode)
+{
+	if (mode == 1 && mask == (1 << n) - 1)
+		return nullptr;
+	Array::Ptr a = new Array();
+	for (int i = 0; i < n; i++) {
+		if (!(mask & (1 << i)))
+			continue;
+		if (mode == 2 && (i & 1))
+			a->Add((double)(1 << i));
+		else
+			a->Add(String(names[i]));
+	}
+	return a;
+}
+
+template<typename T>
+static void ConfigureFilters(const T& obj, int tf, int sf, long long salt)
+{
+	int mode = (int)(((long long)tf + sf + salt) % 3);
+	if (mode == 0 || tf < 0 || tf > 511 || sf < 0 || sf > 63) {
+		obj->SetTypeFilter(tf);
+		obj->SetStateFilter(sf);
+		return;
+	}
+	obj->SetTypes(FilterArray(tf, kTypeNames, 9, mode));
+	obj->SetStates(FilterArray(sf, kStateNames, 6, mode));
+	static_pointer_cast<ConfigObject>(obj)->OnConfigLoaded();
 }
 
 static TimePeriod::Ptr MakePeriod(const std::string& name)
@@ -260,6 +314,8 @@ static void Setup(const CaseCfg& c)
 	SetNow((double)l_Now);
 	IcingaApplication::GetInstance()->SetEnableNotifications(true);
 	SetAuthorityUpdated(true);
+	l_Detached = false;
+	l_HA = false;
 	std::string sfx = std::to_string(l_CaseNo);
 	l_W.isHost = c.kind == 'h';
 
@@ -324,8 +380,9 @@ static void Setup(const CaseCfg& c)
 		uw.user = new User();
 		uw.user->SetName(uname);
 		uw.user->SetEnableNotifications(true);
-		uw.user->SetTypeFilter(uc.tf);
-		uw.user->SetStateFilter(uc.sf);
+		uw.tf = uc.tf;
+		uw.sf = uc.sf;
+		ConfigureFilters(uw.user, uc.tf, uc.sf, (long long)i);
 		uw.user->SetPeriodRaw(pname);
 		uw.user->Register();
 		l_W.idByName[uname] = (int)i;
@@ -384,8 +441,7 @@ static void AddNotification(const NotifCfg& c)
 			times->Set("end", (double)c.tend);
 		n->SetTimes(times);
 	}
-	n->SetTypeFilter(c.tf);
-	n->SetStateFilter(c.sf);
+	ConfigureFilters(n, c.tf, c.sf, c.interval);
 	n->Register();
 	static_pointer_cast<ConfigObject>(n)->OnAllConfigLoaded();
 	n->SetActive(true);
@@ -456,6 +512,7 @@ static std::string UsersStr(int k)
 		std::set<User::Ptr> members = ug->GetMembers();
 		all.insert(members.begin(), members.end());
 	}
+	/* (the filters are printed as configured, not as the objects resolved them: the resolution is code under test) */
 	std::vector<std::pair<int, User::Ptr>> byId;
 	for (const User::Ptr& u : all)
 		byId.emplace_back(UserId(u->GetName()), u);
@@ -467,7 +524,7 @@ static std::string UsersStr(int k)
 	for (size_t i = 0; i < byId.size(); i++) {
 		const User::Ptr& u = byId[i].second;
 		snprintf(buf, sizeof buf, "%s%d:%d:%d:%d:%d", i ? "," : "", byId[i].first, u->GetEnableNotifications() ? 1 : 0,
-			PeriodOpen(u->GetPeriod()) ? 1 : 0, (int)u->GetTypeFilter(), (int)u->GetStateFilter());
+			PeriodOpen(u->GetPeriod()) ? 1 : 0, l_W.users[byId[i].first].tf, l_W.users[byId[i].first].sf);
 		s += buf;
 	}
 	return s;
@@ -633,6 +690,9 @@ static void RequestPre(const Checkable::Ptr& checkable)
 	if (checkable != l_W.obj)
 		return;
 	BeginOp("before a request");
+	l_ForceBefore = checkable->GetForceNextNotification() ? 1 : 0;
+	if (l_Detached)
+		return;
 	if (l_InX)
 		PrintNumbers();
 	Snapshot();
@@ -642,6 +702,16 @@ static void RequestPost(const Checkable::Ptr& checkable, NotificationType type)
 {
 	if (checkable != l_W.obj)
 		return;
+	if (l_Detached) {
+		/* no notification object is registered with the checkable: the request reaches none; what remains to be seen is
+		 * force_next_notification before / after it */
+		if (AnyEvents() || l_CmdCount.load() != 0)
+			Die("a request reached a notification object that is not registered with the checkable", 4);
+		char op[32];
+		snprintf(op, sizeof op, "q %d", (int)type);
+		printf("%s | unseen %d %d\n", l_InX ? op : l_NText.c_str(), l_ForceBefore, checkable->GetForceNextNotification() ? 1 : 0);
+		return;
+	}
 	if (l_InX) {
 		char op[32];
 		snprintf(op, sizeof op, "q %d", (int)type);
@@ -668,6 +738,19 @@ static void OpTick(long long dt, int direct)
 	l_Now += dt;
 	SetNow((double)l_Now);
 	BeginOp("before T");
+	if (l_Detached) {
+		/* the real handler runs; it must not touch objects that are not active */
+		if (direct)
+			(l_NC.get()->*get(NthTag()))();
+		else
+			Timer::VerifFireDue((double)l_Now);
+		if (AnyEvents() || l_CmdCount.load() != 0)
+			Die("the timer processed a notification object that is not active", 4);
+		printf("T %lld %d | unseen\n", dt, direct);
+		return;
+	}
+	if (l_HA)
+		*Stash<ApiInstTag>::value = l_Api;
 	Snapshot();
 	/* label what is stashed (requests the code raised itself carry no text) so that the events of the replay can be attributed */
 	for (auto& nw : l_W.ns) {
@@ -682,14 +765,21 @@ static void OpTick(long long dt, int direct)
 	if (direct) {
 		(l_NC.get()->*get(NthTag()))();
 	} else {
+		/* the pump fires every due timer of the process (the WorkQueues of the HA node's ApiListener have status timers of their own):
+		 * the handler ran iff the component's own timer was due */
+		Timer::Ptr nt = (l_NC.get())->*get(NtTag());
+		bool due = nt && nt->GetNext() <= (double)l_Now;
 		int n = Timer::VerifFireDue((double)l_Now);
 		if (l_Debug)
-			fprintf(stderr, "debug: VerifFireDue(%lld) = %d\n", l_Now, n);
-		fired = n > 0 ? 1 : 0;
+			fprintf(stderr, "debug: VerifFireDue(%lld) = %d, component timer due = %d\n", l_Now, n, due ? 1 : 0);
+		if (due && n == 0)
+			Die("the notification timer was due but the pump fired nothing", 4);
+		fired = due ? 1 : 0;
 	}
 	char op[64];
 	snprintf(op, sizeof op, "T %lld %d", dt, direct);
 	FinishObserved(op, fired, true);
+	*Stash<ApiInstTag>::value = nullptr;
 }
 
 /* X: a real check result through Checkable::ProcessCheckResult — the state machine, suppression and flapping logic decide
@@ -703,7 +793,8 @@ static void OpResult(int state, long long dt)
 	l_InX = true;
 	l_W.obj->ProcessCheckResult(MakeCr((ServiceState)state, (double)l_Now, (double)l_Now, true));
 	l_InX = false;
-	PrintNumbers();
+	if (!l_Detached)
+		PrintNumbers();
 }
 
 /* Z: Checkable::FireSuppressedNotifications (what the checkable's own 5 s timer calls). */
@@ -716,7 +807,8 @@ static void OpFireCheckable(long long dt)
 	l_InX = true;
 	l_W.obj->FireSuppressedNotifications();
 	l_InX = false;
-	PrintNumbers();
+	if (!l_Detached)
+		PrintNumbers();
 }
 
 static void OpState(int state, int hard, int setlhsc)
@@ -909,6 +1001,29 @@ static bool ExecLine(const char *line)
 		if (!need(2) || !ParseLL(w[1], a) || !ParseLL(w[2], b)) return false;
 		if (a >= 0 && (size_t)a < l_W.users.size())
 			l_W.users[a].user->SetEnableNotifications(b != 0);
+	} else if (k == "H") {
+		/* H 0: the checkable has no notification objects (they are created later: config reload, apply rule, API): unregister
+		 * them from the checkable and deactivate them; H 1: they appear (what Notification::OnAllConfigLoaded / Start do) */
+		if (!need(1) || !ParseLL(w[1], a)) return false;
+		bool detach = a == 0;
+		if (detach != l_Detached) {
+			for (auto& nw : l_W.ns) {
+				if (detach) {
+					l_W.obj->UnregisterNotification(nw.notif);
+					nw.notif->SetActive(false);
+				} else {
+					nw.notif->SetActive(true);
+					l_W.obj->RegisterNotification(nw.notif);
+				}
+			}
+			l_Detached = detach;
+		}
+		if (l_W.obj->GetNotifications().size() != (detach ? 0 : l_W.ns.size()))
+			Die("environment operation '" + echo + "' did not have its effect on the real objects", 4);
+	} else if (k == "J") {
+		/* J 1: HA cluster node - Endpoint::GetLocalEndpoint() is set while the notification timer runs (enable_ha is true by default) */
+		if (!need(1) || !ParseLL(w[1], a)) return false;
+		l_HA = a != 0;
 	} else if (k == "B") {
 		/* B 0: cold start (object authority not updated yet: SendNotifications stashes), B 1: authority updated */
 		if (!need(1) || !ParseLL(w[1], a)) return false;
@@ -988,6 +1103,9 @@ struct GenState {
 	int nobj;        /* notification objects of the case */
 	int useX;        /* state changes mostly through the real ProcessCheckResult */
 	int cold;        /* the case starts in the cold-start phase */
+	int late;        /* the notification objects come and go (H) */
+	int ha;          /* HA cluster node: a local endpoint exists during timer runs; authority changes (P) are frequent */
+	int detached;
 	int nOpen[3];    /* what the generator last set: notification periods open */
 	int uOpen[4];    /* user periods */
 	int uEnabled[4]; /* user enable_notifications */
@@ -1031,6 +1149,19 @@ static void RandomOp(Rng& rng, GenState& g, char *buf, size_t n)
 {
 	if (g.cold && rng.below(100) < 12) {
 		snprintf(buf, n, "B %d", rng.below(100) < 75 ? 1 : 0);
+		return;
+	}
+	if (g.late && rng.below(100) < (g.detached ? 30 : 8)) {
+		g.detached = !g.detached;
+		snprintf(buf, n, "H %d", g.detached ? 0 : 1);
+		return;
+	}
+	if (g.ha && rng.below(100) < 8) {
+		int v = RevertBiased(rng, 0);
+		if (g.nobj > 1 && rng.coin())
+			snprintf(buf, n, "P %d %d", v, 1 + (int)rng.below(g.nobj - 1));
+		else
+			snprintf(buf, n, "P %d", v);
 		return;
 	}
 	int k = (int)rng.below(100);
@@ -1121,6 +1252,9 @@ static std::vector<std::string> RandomHeader(Rng& rng, GenState& g)
 	g.nobj = r < 55 ? 1 : (r < 85 ? 2 : 3);
 	g.useX = rng.below(100) < 35 ? 1 : 0;
 	g.cold = rng.below(100) < 15 ? 1 : 0;
+	g.late = rng.below(100) < 15 ? 1 : 0;
+	g.ha = rng.below(100) < 20 ? 1 : 0;
+	g.detached = 0;
 	std::vector<std::string> lines;
 	std::ostringstream s;
 	s << "C " << g.kind << " " << RandomNotifCfg(rng) << " " << g.nusers;
@@ -1142,6 +1276,12 @@ static std::vector<std::string> RandomHeader(Rng& rng, GenState& g)
 		lines.push_back("M " + std::to_string(1 + (int)rng.below(3)));
 	if (g.cold)
 		lines.push_back("B 0");
+	if (g.late && rng.coin()) {
+		g.detached = 1;
+		lines.push_back("H 0");
+	}
+	if (g.ha)
+		lines.push_back("J 1");
 	return lines;
 }
 
@@ -1215,6 +1355,17 @@ int main(int argc, char **argv)
 	Checkable::OnNotificationsRequested.connect([](const Checkable::Ptr& checkable, NotificationType type, const CheckResult::Ptr&,
 		const String&, const String&, const MessageOrigin::Ptr&) { RequestPost(checkable, type); });
 
+	/* a bare ApiListener with a local endpoint, never activated (RelayMessage returns at once): installed only around timer runs */
+	{
+		Endpoint::Ptr ep = new Endpoint();
+		ep->SetName("c03-local-endpoint");
+		ep->Register();
+		l_Api = new ApiListener();
+		(l_Api.get())->*(Stash<ApiLocalEpTag>::value) = ep;
+		if (!l_NC->GetEnableHA())
+			Die("enable_ha is not the default");
+	}
+
 	std::string mode = argv[1];
 	if (mode == "gen") {
 		uint64_t seed = strtoull(argOr(argc, argv, "--seed", "1"), nullptr, 10);
@@ -1238,6 +1389,32 @@ int main(int argc, char **argv)
 			Must("T 60 1");
 			Must("N 64 0");
 			Must("N 16 0");
+		}
+		/* (a') exhaustive: the checkable's side of a request - force_next_notification is consumed by every request, also while
+		 * the checkable has no notification objects (yet); objects that appear later see ordinary requests as ordinary */
+		{
+			static const char *const kAlpha2[] = { "F", "H 0", "H 1", "N 32 0", "N 8 0", "W n 0", "E 0", "T 60 1" };
+			const int A2 = 8, L2 = thorough ? 5 : 4;
+			long total2 = 1;
+			for (int i = 0; i < L2; i++) total2 *= A2;
+			for (int variant = 0; variant < 4; variant++)
+			for (long code = 0; code < total2; code++) {
+				char hdr[128];
+				/* notification type filter: everything / Recovery only; users subscribed to everything / user 1 to Problem|Recovery */
+				bool host = variant == 1 || variant == 3, recoveryOnly = variant == 1 || variant == 2, startDetached = variant >= 2;
+				snprintf(hdr, sizeof hdr, "C %c 60 - - %d 63 1 2 1 511 63 0 1 96 63 0", host ? 'h' : 's', recoveryOnly ? 64 : 511);
+				Must(hdr);
+				if (host)
+					Must("O 0 - - 96 63 0 3 2");
+				Must("S 2 1 1");
+				if (startDetached)
+					Must("H 0");
+				long c = code;
+				for (int i = 0; i < L2; i++) { Must(kAlpha2[c % A2]); c /= A2; }
+				Must("H 1");
+				Must("N 32 0");
+				Must("N 16 0");
+			}
 		}
 		/* (b) random part */
 		Rng rng(seed);
